@@ -4,10 +4,10 @@ import HeartwoodModel.Lemmas.Identity
 # C04 — Identity revisions need a majority of valid delegate signatures
 
 Theorems about `Model/Identity.lean` (the CURRENT `/repo`: `Identity::op` atomic, `RevisionAccept`
-checks before it records). `V` is the Ed25519 verification predicate — a parameter, universally
-quantified in every theorem. `MajoritySigned V d r` = a duplicate-free list of at least
-`|delegates(d)|/2 + 1` delegates of `d`, each with a recorded `Accept` verdict on `r` whose signature
-verifies (`V`) over `r`'s blob.
+checks before it records, an op may create at most one revision). `V` is the Ed25519 verification
+predicate — a parameter, universally quantified in every theorem. `MajoritySigned V d r` = a
+duplicate-free list of at least `|delegates(d)|/2 + 1` delegates of `d`, each with a recorded `Accept`
+verdict on `r` whose signature verifies (`V`) over `r`'s blob.
 
 `Inv V s` (Lemmas/Identity.lean) is the invariant of evaluation; it holds after `from_root` and is
 preserved by every applied op (below), so the per-action theorems apply to every reachable state.
@@ -18,16 +18,14 @@ open HeartwoodModel.Cob
 
 /-! ### single action -/
 
-/-- **current_needs_majority** (per action, any invariant state, any action / author / `V`).
+/-- **current_needs_majority** (per action, any invariant state, any action / author / op id / `V`).
 Whenever an action moves `current` from `r0` to `r1`: `r1` is a live revision whose parent is `r0`, and a
-strict majority of the delegates of `r0`'s document have each recorded a valid signature over `r1`'s blob.
-(`Fresh`: for a `Revision` action the op's id is a new id.) -/
+strict majority of the delegates of `r0`'s document have each recorded a valid signature over `r1`'s blob. -/
 theorem current_needs_majority {V : Key → Sig → Blob → Bool} {s s' : Identity} {a : Action} {entry : Id}
-    {author : Key} (inv : Inv V s) (hf : (∃ t d p sg, a = .revision t d p sg) → Fresh s entry)
-    (h : action V s a entry author = .ok s') (hne : s'.current ≠ s.current) :
+    {author : Key} (inv : Inv V s) (h : action V s a entry author = .ok s') (hne : s'.current ≠ s.current) :
     ∃ c r1, get? s.current s.revisions = some (some c) ∧ get? s'.current s'.revisions = some (some r1) ∧
       r1.parent = some s.current ∧ MajoritySigned V c.doc r1 := by
-  rcases (action_step inv hf h).trans with h1 | h1
+  rcases (action_step inv h).trans with h1 | h1
   · exact absurd h1 hne
   · exact h1
 
@@ -35,20 +33,19 @@ theorem current_needs_majority {V : Key → Sig → Blob → Bool} {s s' : Ident
 redacted, edited or otherwise modified, and `current` only ever moves to a revision whose parent is the
 previous `current`. -/
 theorem current_is_stable {V : Key → Sig → Blob → Bool} {s s' : Identity} {a : Action} {entry : Id}
-    {author : Key} (inv : Inv V s) (hf : (∃ t d p sg, a = .revision t d p sg) → Fresh s entry)
-    (h : action V s a entry author = .ok s') :
+    {author : Key} (inv : Inv V s) (h : action V s a entry author = .ok s') :
     (∀ id r, get? id s.revisions = some (some r) → r.state = .accepted → get? id s'.revisions = some (some r)) ∧
     (s'.current ≠ s.current → ∃ r1, get? s'.current s'.revisions = some (some r1) ∧ r1.parent = some s.current) := by
-  have st := action_step inv hf h
+  have st := action_step inv h
   refine ⟨st.stable, fun hne => ?_⟩
-  obtain ⟨c, r1, _, h2, h3, _⟩ := current_needs_majority inv hf h hne
+  obtain ⟨c, r1, _, h2, h3, _⟩ := current_needs_majority inv h hne
   exact ⟨r1, h2, h3⟩
 
 /-! ### whole operations -/
 
 /-- **non_delegate_no_effect**: an op whose author is not a delegate of the current document leaves the
 identity state unchanged (whether it is rejected, or — with concurrent entries — skipped action by
-action). -/
+action). No invariant is needed. -/
 theorem non_delegate_no_effect {V : Key → Sig → Blob → Bool} {s s' : Identity} {o : Op}
     (hnd : ∀ c, s.currentRev = some c → c.doc.isDelegate o.author = false) (h : op V s o = .ok s') :
     s' = s := by
@@ -74,189 +71,31 @@ theorem non_delegate_step {V : Key → Sig → Blob → Bool} {s : Identity} {o 
   | error _ => rfl
   | ok s' => exact non_delegate_no_effect hnd hop
 
-def Action.isRevision : Action → Bool
-  | .revision _ _ _ _ => true
-  | _ => false
-
-/-- The op contains at most one `Revision` action (the real code only `debug_assert!`s that the op's id
-is not yet a revision id; see `overwrite_counterexample`). -/
-def SingleRevision (o : Op) : Prop := (o.actions.filter Action.isRevision).length ≤ 1
-
-theorem adopt_heads {s s' : Identity} {cur : Revision} {id : Id} (h : adopt s cur id = .ok s') :
-    s'.heads = s.heads := by
-  rcases adopt_spec h with h1 | ⟨_, _, r0, _, h1⟩ <;> subst h1 <;> rfl
-
-theorem adopt_rev_none {s s' : Identity} {cur : Revision} {id e : Id} (h : adopt s cur id = .ok s')
-    (hne : e ≠ id) (hn : get? e s.revisions = none) : get? e s'.revisions = none := by
-  rcases adopt_spec h with h1 | ⟨_, _, r0, _, h1⟩ <;> subst h1
-  · exact hn
-  · show get? e (adoptedRevisions s.revisions id r0) = none
-    unfold adoptedRevisions
-    rw [get?_map_snd, get?_ins_ne _ _ hne, hn]; rfl
-
-/-- Freshness of an id `e` is kept by every action that is not a `Revision` action of the entry `e`
-itself. -/
-theorem Fresh.action {V : Key → Sig → Blob → Bool} {s s' : Identity} {a : Action} {e entry : Id} {author : Key}
-    (hf : Fresh s e) (hnr : a.isRevision = false ∨ e ≠ entry) (h : action V s a entry author = .ok s') :
-    Fresh s' e := by
-  unfold Identity.action at h
-  split at h
-  · cases h
-  · rename_i cur hcr
-    split at h
-    · cases h
-    · cases a with
-      | revision t d p sg =>
-        have hne : e ≠ entry := by
-          rcases hnr with h1 | h1
-          · cases h1
-          · exact h1
-        simp only at h
-        unfold actRevision at h
-        repeat' split at h
-        all_goals first | cases h | skip
-        · have hh := adopt_heads h
-          have hrv := adopt_rev_none h hne
-            (by show get? e (ins entry _ s.revisions) = none; rw [get?_ins_ne _ _ hne]; exact hf.rev)
-          refine ⟨hrv, fun k hk => ?_⟩
-          rw [hh] at hk
-          have hk' : get? k (ins author entry s.heads) = some e := hk
-          rw [get?_ins] at hk'
-          split at hk'
-          · cases hk'; exact hne rfl
-          · exact hf.head k hk'
-        · refine ⟨by show get? e (ins entry _ s.revisions) = none; rw [get?_ins_ne _ _ hne]; exact hf.rev,
-            fun k hk => ?_⟩
-          have hk' : get? k (ins author entry s.heads) = some e := hk
-          rw [get?_ins] at hk'
-          split at hk'
-          · cases hk'; exact hne rfl
-          · exact hf.head k hk'
-      | revisionAccept id sig =>
-        simp only at h
-        unfold actAccept at h
-        split at h
-        · cases h
-        · cases h
-        · rename_i r hr
-          have hne : e ≠ id := by intro hh; subst hh; have := hf.rev; rw [hr] at this; cases this
-          repeat' split at h
-          all_goals first | cases h | skip
-          have hh := adopt_heads h
-          have hrv := adopt_rev_none h hne
-            (by show get? e (ins id _ s.revisions) = none; rw [get?_ins_ne _ _ hne]; exact hf.rev)
-          refine ⟨hrv, fun k hk => ?_⟩
-          rw [hh] at hk
-          have hk' : get? k (ins author id s.heads) = some e := hk
-          rw [get?_ins] at hk'
-          split at hk'
-          · cases hk'; exact hne rfl
-          · exact hf.head k hk'
-      | revisionReject id =>
-        simp only at h
-        unfold actReject at h
-        split at h
-        · cases h
-        · cases h
-        · rename_i r hr
-          have hne : e ≠ id := by intro hh; subst hh; have := hf.rev; rw [hr] at this; cases this
-          repeat' split at h
-          all_goals first | cases h | skip
-          all_goals exact ⟨by show get? e (ins id _ s.revisions) = none; rw [get?_ins_ne _ _ hne]; exact hf.rev, hf.head⟩
-      | revisionEdit id t =>
-        simp only at h
-        unfold actEdit at h
-        split at h
-        · cases h
-        · split at h
-          · cases h
-          · cases h
-          · rename_i r hr
-            have hne : e ≠ id := by intro hh; subst hh; have := hf.rev; rw [hr] at this; cases this
-            repeat' split at h
-            all_goals first | cases h | skip
-            all_goals exact ⟨by show get? e (ins id _ s.revisions) = none; rw [get?_ins_ne _ _ hne]; exact hf.rev, hf.head⟩
-      | revisionRedact id =>
-        simp only at h
-        unfold actRedact at h
-        split at h
-        · cases h
-        · split at h
-          · cases h
-          · cases h; exact hf
-          · rename_i r hr
-            have hne : e ≠ id := by intro hh; subst hh; have := hf.rev; rw [hr] at this; cases this
-            repeat' split at h
-            all_goals first | cases h | skip
-            all_goals exact ⟨by show get? e (ins id _ s.revisions) = none; rw [get?_ins_ne _ _ hne]; exact hf.rev, hf.head⟩
-
-/-- What the actions of one applied op guarantee, from an invariant state in which the op's id is fresh,
-when the op contains at most one `Revision` action. -/
+/-- The actions of one applied op preserve the invariant and never touch an accepted revision. -/
 theorem applyActions_inv {V : Key → Sig → Blob → Bool} {entry : Id} {author : Key} {conc : Bool}
-    (as : List Action) {s s' : Identity} (inv : Inv V s)
-    (hf : (Fresh s entry ∧ (as.filter Action.isRevision).length ≤ 1) ∨ as.filter Action.isRevision = [])
-    (h : applyActions V entry author conc s as = .ok s') :
+    (as : List Action) {s s' : Identity} (inv : Inv V s) (h : applyActions V entry author conc s as = .ok s') :
     Inv V s' ∧ s'.root = s.root ∧
-    (∀ id r, get? id s.revisions = some (some r) → r.state = .accepted → get? id s'.revisions = some (some r)) ∧
-    (∀ e, e ≠ entry → Fresh s e → Fresh s' e) := by
+    (∀ id r, get? id s.revisions = some (some r) → r.state = .accepted → get? id s'.revisions = some (some r)) := by
   induction as generalizing s with
-  | nil => simp only [applyActions] at h; cases h; exact ⟨inv, rfl, fun _ _ h _ => h, fun _ _ h => h⟩
+  | nil => simp only [applyActions] at h; cases h; exact ⟨inv, rfl, fun _ _ h _ => h⟩
   | cons a as ih =>
-    -- freshness hypothesis for the rest, if the state does not change
-    have hrest_same : (Fresh s entry ∧ (as.filter Action.isRevision).length ≤ 1) ∨
-        as.filter Action.isRevision = [] := by
-      rcases hf with ⟨h1, h2⟩ | h2
-      · left
-        refine ⟨h1, ?_⟩
-        simp only [List.filter_cons] at h2
-        split at h2
-        · simp only [List.length_cons] at h2; omega
-        · exact h2
-      · right
-        simp only [List.filter_cons] at h2
-        split at h2
-        · cases h2
-        · exact h2
     simp only [applyActions] at h
     split at h
     · rename_i s1 h1
-      have hfa : (∃ t d p sg, a = .revision t d p sg) → Fresh s entry := by
-        rintro ⟨t, d, p, sg, rfl⟩
-        rcases hf with ⟨h1, _⟩ | h2
-        · exact h1
-        · simp [List.filter_cons, Action.isRevision] at h2
-      have st := action_step inv hfa h1
-      have hrest : (Fresh s1 entry ∧ (as.filter Action.isRevision).length ≤ 1) ∨
-          as.filter Action.isRevision = [] := by
-        cases hrev : a.isRevision with
-        | true =>
-          right
-          rcases hf with ⟨_, h2⟩ | h2
-          · simp only [List.filter_cons, hrev, if_true, List.length_cons] at h2
-            exact List.length_eq_zero_iff.mp (by omega)
-          · simp [List.filter_cons, hrev] at h2
-        | false =>
-          rcases hrest_same with ⟨hfs, hl⟩ | hl
-          · exact Or.inl ⟨hfs.action (Or.inl hrev) h1, hl⟩
-          · exact Or.inr hl
-      obtain ⟨i2, r2, s2, f2⟩ := ih st.inv hrest h
-      refine ⟨i2, r2.trans st.root, fun id r hr hacc => s2 id r (st.stable id r hr hacc) hacc,
-        fun e hne hfe => f2 e hne (hfe.action (Or.inr hne) h1)⟩
+      have st := action_step inv h1
+      obtain ⟨i2, r2, s2⟩ := ih st.inv h
+      exact ⟨i2, r2.trans st.root, fun id r hr hacc => s2 id r (st.stable id r hr hacc) hacc⟩
     · split at h
-      · exact ih inv hrest_same h
+      · exact ih inv h
       · cases h
-    · exact ih inv hrest_same h
+    · exact ih inv h
     · cases h
 
-/-- An applied op preserves the invariant, never touches an accepted revision, and keeps every other
-unused id fresh. -/
-theorem op_inv {V : Key → Sig → Blob → Bool} {s s' : Identity} {o : Op} (inv : Inv V s)
-    (hf : Fresh s o.id) (hs : SingleRevision o) (h : op V s o = .ok s') :
+/-- An applied op preserves the invariant and never touches an accepted revision. -/
+theorem op_inv {V : Key → Sig → Blob → Bool} {s s' : Identity} {o : Op} (inv : Inv V s) (h : op V s o = .ok s') :
     Inv V s' ∧ s'.root = s.root ∧
-    (∀ id r, get? id s.revisions = some (some r) → r.state = .accepted → get? id s'.revisions = some (some r)) ∧
-    (∀ e, e ≠ o.id → Fresh s e → Fresh s' e) :=
-  applyActions_inv o.actions inv (Or.inl ⟨hf, hs⟩) h
-
+    (∀ id r, get? id s.revisions = some (some r) → r.state = .accepted → get? id s'.revisions = some (some r)) :=
+  applyActions_inv o.actions inv h
 
 /-! ### histories -/
 
@@ -277,10 +116,9 @@ theorem foldl_ins_vals {ds : List Key} {v : Id} {m : List (Key × Id)} (hm : ∀
     · cases h'; rfl
     · exact hm k' x' h'
 
-/-- The state built by `from_root` satisfies the invariant, and every other id is fresh in it. -/
+/-- The state built by `from_root` satisfies the invariant. -/
 theorem fromRoot_inv {V : Key → Sig → Blob → Bool} {root : Op} {embedded : Option IdDoc} {repoId : Blob}
-    {s0 : Identity} (h : fromRoot V root embedded repoId = .ok s0) :
-    Inv V s0 ∧ s0.root = root.id ∧ ∀ e, e ≠ root.id → Fresh s0 e := by
+    {s0 : Identity} (h : fromRoot V root embedded repoId = .ok s0) : Inv V s0 ∧ s0.root = root.id := by
   unfold Identity.fromRoot at h
   split at h
   · split at h
@@ -288,7 +126,7 @@ theorem fromRoot_inv {V : Key → Sig → Blob → Bool} {root : Op} {embedded :
     · rename_i rootDoc
       repeat' split at h
       all_goals first | cases h | skip
-      refine ⟨⟨⟨_, if_pos rfl, rfl⟩, foldl_ins_keys (by simp), ?_, ?_⟩, rfl, fun e hne => ⟨?_, ?_⟩⟩
+      refine ⟨⟨⟨_, if_pos rfl, rfl⟩, foldl_ins_keys (by simp), ?_, ?_, ?_⟩, rfl⟩
       · intro id r c hr hact _
         simp only [get?] at hr
         split at hr
@@ -299,10 +137,10 @@ theorem fromRoot_inv {V : Key → Sig → Blob → Bool} {root : Op} {embedded :
         split at hr
         · rename_i hh; exact absurd hh.symm hroot
         · cases hr
-      · simp [get?, Ne.symm hne]
-      · intro k hk
-        have := foldl_ins_vals (v := root.id) (m := []) (fun k x h => by simp [get?] at h) k e hk
-        exact hne this
+      · intro k id hk
+        have := foldl_ins_vals (v := root.id) (m := []) (fun k x h => by simp [get?] at h) k id hk
+        subst this
+        simp [get?]
   · cases h
 
 theorem eval_cons (V : Key → Sig → Blob → Bool) (s : Identity) (o : Op) (os : List Op) :
@@ -315,136 +153,86 @@ theorem step_cases (V : Key → Sig → Blob → Bool) (s : Identity) (o : Op) :
   | error e => exact Or.inl ⟨⟨e, rfl⟩, rfl⟩
   | ok s1 => exact Or.inr ⟨s1, rfl, rfl⟩
 
-/-- Evaluating entries with pairwise distinct, fresh ids, each with at most one `Revision` action,
-preserves the invariant and never touches an accepted revision. -/
-theorem eval_inv {V : Key → Sig → Blob → Bool} (ops : List Op) {s : Identity} (inv : Inv V s)
-    (hf : ∀ o ∈ ops, Fresh s o.id) (hn : (ops.map (·.id)).Nodup) (hs : ∀ o ∈ ops, SingleRevision o) :
+/-- Evaluating any entries preserves the invariant and never touches an accepted revision. -/
+theorem eval_inv {V : Key → Sig → Blob → Bool} (ops : List Op) {s : Identity} (inv : Inv V s) :
     Inv V (eval V s ops) ∧ (eval V s ops).root = s.root ∧
     (∀ id r, get? id s.revisions = some (some r) → r.state = .accepted →
       get? id (eval V s ops).revisions = some (some r)) := by
   induction ops generalizing s with
   | nil => exact ⟨inv, rfl, fun _ _ h _ => h⟩
   | cons o os ih =>
-    simp only [List.map_cons, List.nodup_cons] at hn
-    have hs' : ∀ o' ∈ os, SingleRevision o' := fun o' ho' => hs o' (List.mem_cons_of_mem _ ho')
     simp only [eval_cons]
     rcases step_cases V s o with ⟨_, hst⟩ | ⟨s1, hop, hst⟩
+    · rw [hst]; exact ih inv
     · rw [hst]
-      exact ih inv (fun o' ho' => hf o' (List.mem_cons_of_mem _ ho')) hn.2 hs'
-    · rw [hst]
-      obtain ⟨i1, r1, st1, f1⟩ := op_inv inv (hf o List.mem_cons_self) (hs o List.mem_cons_self) hop
-      have hf1 : ∀ o' ∈ os, Fresh s1 o'.id := by
-        intro o' ho'
-        refine f1 o'.id ?_ (hf o' (List.mem_cons_of_mem _ ho'))
-        intro heq
-        exact hn.1 (heq ▸ List.mem_map.mpr ⟨o', ho', rfl⟩)
-      obtain ⟨i2, r2, st2⟩ := ih i1 hf1 hn.2 hs'
+      obtain ⟨i1, r1, st1⟩ := op_inv inv hop
+      obtain ⟨i2, r2, st2⟩ := ih i1
       exact ⟨i2, r2.trans r1, fun id r hr hacc => st2 id r (st1 id r hr hacc) hacc⟩
 
-/-- **accepted_has_majority** — the property over whole histories: for every `V`, every valid root op
-and every list of further entries with pairwise distinct ids and at most one `Revision` action each (in
-whatever order the evaluator linearised them, with whatever `concurrent` flags; rejected entries are
-pruned), in the evaluated state
+/-- **accepted_has_majority** — the property over whole histories, at full strength: for every `V`, every
+valid root op and every list of further entries (any ids, any authors, any actions, in whatever order and
+with whatever `concurrent` flags the evaluator used; rejected entries are pruned), in the evaluated state
 * the current revision exists and is accepted;
 * every accepted revision other than the root — in particular the current one — has a live, accepted
   parent, and a strict majority of the delegates of the PARENT's document have each recorded a valid
   signature over its blob. -/
 theorem accepted_has_majority {V : Key → Sig → Blob → Bool} {root : Op} {embedded : Option IdDoc}
-    {repoId : Blob} {s0 : Identity} (h0 : fromRoot V root embedded repoId = .ok s0) (ops : List Op)
-    (hids : (root.id :: ops.map (·.id)).Nodup) (hs : ∀ o ∈ ops, SingleRevision o) :
-    let s := eval V s0 ops
-    (∃ c, get? s.current s.revisions = some (some c) ∧ c.state = .accepted) ∧
-    ∀ id r, get? id s.revisions = some (some r) → r.state = .accepted → id ≠ root.id →
-      ∃ pid p, r.parent = some pid ∧ get? pid s.revisions = some (some p) ∧ p.state = .accepted ∧
-        MajoritySigned V p.doc r := by
-  intro s
-  obtain ⟨inv0, hroot0, hfresh0⟩ := fromRoot_inv h0
-  have hn := List.nodup_cons.mp hids
-  have hf : ∀ o ∈ ops, Fresh s0 o.id := by
-    intro o ho
-    refine hfresh0 o.id ?_
-    intro heq
-    exact hn.1 (heq ▸ List.mem_map.mpr ⟨o, ho, rfl⟩)
-  obtain ⟨inv, hr, _⟩ := eval_inv ops inv0 hf hn.2 hs
+    {repoId : Blob} {s0 : Identity} (h0 : fromRoot V root embedded repoId = .ok s0) (ops : List Op) :
+    (∃ c, get? (eval V s0 ops).current (eval V s0 ops).revisions = some (some c) ∧ c.state = .accepted) ∧
+    ∀ id r, get? id (eval V s0 ops).revisions = some (some r) → r.state = .accepted → id ≠ root.id →
+      ∃ pid p, r.parent = some pid ∧ get? pid (eval V s0 ops).revisions = some (some p) ∧
+        p.state = .accepted ∧ MajoritySigned V p.doc r := by
+  obtain ⟨inv0, hroot0⟩ := fromRoot_inv h0
+  obtain ⟨inv, hr, _⟩ := eval_inv ops inv0
   refine ⟨inv.cur, fun id r h1 h2 h3 => inv.accepted id r h1 h2 ?_⟩
-  show id ≠ (eval V s0 ops).root
   rw [hr, hroot0]; exact h3
 
 /-- **accepted_is_forever** — once a revision is accepted (current), no later entry redacts, edits or
 replaces it: it is found unchanged in every later evaluated state. -/
 theorem accepted_is_forever {V : Key → Sig → Blob → Bool} {root : Op} {embedded : Option IdDoc}
     {repoId : Blob} {s0 : Identity} (h0 : fromRoot V root embedded repoId = .ok s0) (pre post : List Op)
-    (hids : (root.id :: (pre ++ post).map (·.id)).Nodup) (hs : ∀ o ∈ pre ++ post, SingleRevision o)
     {id : Id} {r : Revision} (hr : get? id (eval V s0 pre).revisions = some (some r))
     (hacc : r.state = .accepted) : get? id (eval V s0 (pre ++ post)).revisions = some (some r) := by
-  obtain ⟨inv0, hroot0, hfresh0⟩ := fromRoot_inv h0
-  have hn := List.nodup_cons.mp hids
-  have hn2 : (pre.map (·.id) ++ post.map (·.id)).Nodup := by simpa using hn.2
-  have hf : ∀ o ∈ pre ++ post, Fresh s0 o.id := by
-    intro o ho
-    refine hfresh0 o.id ?_
-    intro heq
-    exact hn.1 (heq ▸ List.mem_map.mpr ⟨o, ho, rfl⟩)
-  -- evaluate `pre`, keeping the ids of `post` fresh
-  have key : ∀ (ops : List Op) (s : Identity), Inv V s → (∀ o ∈ ops ++ post, Fresh s o.id) →
-      ((ops ++ post).map (·.id)).Nodup → (∀ o ∈ ops ++ post, SingleRevision o) →
-      Inv V (eval V s ops) ∧ ∀ o ∈ post, Fresh (eval V s ops) o.id := by
-    intro ops
-    induction ops with
-    | nil => intro s inv hf _ _; exact ⟨inv, fun o ho => hf o (by simpa using ho)⟩
-    | cons o os ih =>
-      intro s inv hf hn hs
-      simp only [List.cons_append, List.map_cons, List.nodup_cons] at hn
-      simp only [eval_cons]
-      rcases step_cases V s o with ⟨_, hst⟩ | ⟨s1, hop, hst⟩
-      · rw [hst]
-        exact ih s inv (fun o' ho' => hf o' (List.mem_cons_of_mem _ ho')) hn.2
-          (fun o' ho' => hs o' (List.mem_cons_of_mem _ ho'))
-      · rw [hst]
-        obtain ⟨i1, _, _, f1⟩ := op_inv inv (hf o List.mem_cons_self) (hs o List.mem_cons_self) hop
-        refine ih s1 i1 (fun o' ho' => f1 o'.id ?_ (hf o' (List.mem_cons_of_mem _ ho'))) hn.2
-          (fun o' ho' => hs o' (List.mem_cons_of_mem _ ho'))
-        intro heq
-        exact hn.1 (heq ▸ List.mem_map.mpr ⟨o', ho', rfl⟩)
-  obtain ⟨inv1, hf1⟩ := key pre s0 inv0 hf (by simpa using hn.2) hs
-  have hnpost : (post.map (·.id)).Nodup := (List.nodup_append.mp hn2).2.1
-  obtain ⟨_, _, st⟩ := eval_inv post inv1 hf1 hnpost (fun o ho => hs o (List.mem_append_right _ ho))
+  obtain ⟨inv0, _⟩ := fromRoot_inv h0
+  obtain ⟨inv1, _, _⟩ := eval_inv pre inv0
+  obtain ⟨_, _, st⟩ := eval_inv post inv1
   have : eval V s0 (pre ++ post) = eval V (eval V s0 pre) post := by
     simp [Identity.eval, List.foldl_append]
   rw [this]
   exact st id r hr hacc
 
-/-! ### the `debug_assert!` in the `Revision` arm: why `SingleRevision` is needed -/
+/-- **current_moves_only_with_majority** (history form of `current_needs_majority`): at every position of
+every history, every single action that moves `current` is justified. Stated for the state reached
+after any prefix: it satisfies the invariant the per-action theorems need. -/
+theorem reachable_inv {V : Key → Sig → Blob → Bool} {root : Op} {embedded : Option IdDoc}
+    {repoId : Blob} {s0 : Identity} (h0 : fromRoot V root embedded repoId = .ok s0) (ops : List Op) :
+    Inv V (eval V s0 ops) :=
+  (eval_inv ops (fromRoot_inv h0).1).1
 
-section Counterexample
+/-! ### regression: an op with two `Revision` actions (fix a66814b) -/
+
+section Regression
 
 def Vtrue : Key → Sig → Blob → Bool := fun _ _ _ => true
 def d0 : IdDoc := { blob := 0, delegates := [0] }
 def d1 : IdDoc := { blob := 1, delegates := [0, 1, 2] }
 def d2 : IdDoc := { blob := 2, delegates := [0, 3] }
 def rootOp : Op := { id := 0, author := 0, concurrent := false, actions := [.revision 1 (some d0) none 0] }
-/-- one op, two `Revision` actions: the first is adopted (the author is the only delegate of `d0`), the
-second — whose parent is the root, not the new current revision — overwrites it under the same id. -/
+/-- one op, two `Revision` actions: before the fix the first was adopted (the author is the only delegate
+of `d0`) and the second — whose parent is the root — overwrote it in place under the same id. -/
 def twoRevisions : Op :=
   { id := 1, author := 0, concurrent := false,
     actions := [.revision 1 (some d1) (some 0) 0, .revision 2 (some d2) (some 0) 0] }
 
-/-- **overwrite_counterexample**: without `SingleRevision` the history statement is FALSE of the model
-(and of the release build of `/repo`, where the guard is only a `debug_assert!`): after the op
-`twoRevisions` the current revision is the op's own id, but its document is `d2`, its state `stale`, its
-parent the root — the document `d1` that was current after the first action (three delegates, majority
-two) has been replaced in place with a single signature and without a successor revision. -/
-theorem overwrite_counterexample :
-    ∃ s0, fromRoot Vtrue rootOp (some d0) 0 = .ok s0 ∧ (rootOp.id :: [twoRevisions].map (·.id)).Nodup ∧
-      (eval Vtrue s0 [twoRevisions]).current = 1 ∧
-      (eval Vtrue s0 [twoRevisions]).currentRev.map (fun r => (r.doc.blob, r.state, r.parent, r.verdicts)) =
-        some (2, RState.stale, some 0, [(0, Verdict.accept 0)]) ∧
-      -- after the first action alone the current document was `d1`
+/-- The op is now rejected as a whole and leaves the identity untouched; its first action alone is fine. -/
+theorem double_revision_rejected :
+    ∃ s0, fromRoot Vtrue rootOp (some d0) 0 = .ok s0 ∧ op Vtrue s0 twoRevisions = .error .init ∧
+      eval Vtrue s0 [twoRevisions] = s0 ∧
       (eval Vtrue s0 [{ twoRevisions with actions := [.revision 1 (some d1) (some 0) 0] }]).currentRev.map
         (fun r => (r.doc.blob, r.state)) = some (1, RState.accepted) :=
-  ⟨_, rfl, by decide, by decide, by decide, by decide⟩
+  ⟨_, rfl, rfl, by decide, by decide⟩
 
-end Counterexample
+end Regression
 
 /-! ### non-vacuity -/
 
@@ -452,9 +240,9 @@ section Examples
 
 def dA : IdDoc := { blob := 0, delegates := [0, 1, 2, 3] }
 def dB : IdDoc := { blob := 1, delegates := [0, 1, 2] }
-/-- signature token `k` is key `k`'s signature over blob 1; token `9` verifies for nobody. -/
-def V4 : Key → Sig → Blob → Bool := fun k s b => s = k ∧ b = 1
 def root4 : Op := { id := 0, author := 0, concurrent := false, actions := [.revision 1 (some dA) none 0] }
+/-- signature token `k` is key `k`'s signature over blob 1 (and key 0's token 0 also over the root blob);
+token `9` verifies for nobody. -/
 def Vroot : Key → Sig → Blob → Bool := fun k s b => (s = k ∧ b = 1) ∨ (k = 0 ∧ s = 0 ∧ b = 0)
 def propose : Op := { id := 1, author := 0, concurrent := false, actions := [.revision 2 (some dB) (some 0) 0] }
 def forged : Op := { id := 2, author := 1, concurrent := false, actions := [.revisionAccept 1 9] }
